@@ -687,6 +687,22 @@ def subscript(I, fr, base, idx, node, quiet=False):
     if base.kind == K_DICT:
         if idx.has_const() and base.dvals is not None and idx.const in base.dvals:
             return base.dvals[idx.const]
+        if idx.kind == K_TUPLE and idx.items and base.dvals:
+            # a tuple key: the entries whose key agrees with every component that is known (all of them known: that entry)
+            known = [(i.const if i.has_const() else _NOCONST) for i in idx.items]
+            cands = [v_ for k_, v_ in base.dvals.items() if isinstance(k_, tuple) and len(k_) == len(known) and
+                     all(c_ is _NOCONST or (c_ == kk_ and type(c_) is type(kk_)) for c_, kk_ in zip(known, k_))]
+            if cands and (base.dmay is not None or all(c_ is not _NOCONST for c_ in known)):
+                out_ = None
+                for v_ in cands:
+                    out_ = join_av(out_, v_)
+                return out_
+        if not idx.has_const() and base.dvals and base.dmay is not None and idx.kind != K_TUPLE and set(base.dmay) <= set(base.dvals):
+            # a computed key on a dictionary all of whose entries are known: the item is one of them (a missing key raises, it gives no value)
+            out_ = None
+            for v_ in base.dvals.values():
+                out_ = join_av(out_, v_)
+            return out_
         if base.elem is not None and not base.dvals:
             if base.dmay is None and not idx.has_const():
                 # a computed key on a dictionary that may hold entries this run did not put there (a cache in an unknown state): the
@@ -893,7 +909,7 @@ def nd_attr(I, fr, base, attr, node):
         return AV(kind=K_SCALAR, dtype="int", shape=(), sym=sym, sign=S_NONNEG,
                   alg={at: alg_shape(b.a(at)) for at in b.atoms()}, tags=b.tags | frozenset(["len-of"]), origin=frozenset(["lit"]))
     if attr == "dtype":
-        return AV(kind=K_OBJ, note="dtype", tags=b.tags | frozenset(["dtype-of"]))
+        return AV(kind=K_OBJ, note="dtype", dtype=b.dtype, tags=b.tags | frozenset(["dtype-of"]))
     if attr in ("real", "imag"):
         return b.replace(dtype="real" if b.dtype in ("complex", "real") else b.dtype, const=_NOCONST,
                          sign=b.sign if (attr == "real" and b.dtype != "complex") else S_ANY)
@@ -1432,6 +1448,8 @@ def _dtype_of_arg(av):
         if s.startswith("bool"):
             return "bool"
         return None
+    if av.kind == K_OBJ and av.note == "dtype":
+        return av.dtype if av.dtype != "top" else None          # x.dtype of an array whose dtype is known
     if av.ref is not None:
         n = av.ref[1] if isinstance(av.ref[1], str) else ""
         n = n.split(".")[-1]
